@@ -71,6 +71,8 @@ def stream_a(rng, n):
                 mlines.append(f'saveload {k_}')
             else:
                 mlines.append(l)
+        if getattr(run, 'save_touched_best', False):
+            bad.append(dict(script=lines, kw=kw, violated='save() changed the state (parameters or buffers) of the stored best networks'))
         reals.append((lines, kw, out))
         blocks.append('\n'.join(mlines) + '\n---')
         # the property itself on the real observations
@@ -191,6 +193,10 @@ def stream_real(rng, n, shim):
             ctx['n_batches_valid'] = nv
             s, coords = make_real(kind, rng, opt, n_valid=nv)
             s.fit(rng.randint(0, 4), tqdm_file=None)
+            if rng.random() < 0.5:      # a learning-rate schedule / manual decay after construction: part of the optimiser that is saved
+                for grp in s.optimizer.param_groups:
+                    grp['lr'] = grp['lr'] * 0.37
+                ctx['lr_changed_after_construction'] = True
             cur = s
             for cyc in range(rng.randint(1, 2) if shim else 1):
                 before = snapshot(cur)
